@@ -142,6 +142,10 @@ def _build(r, ctx):
             kw["num_outputs_per_input"] = tuple(r["nout"])
         if r.get("nonbatch"):
             kw["num_nonbatch_dimensions"] = dict(r["nonbatch"])
+        if r.get("op_param") == "task_root":
+            # the same kernel with the task covariance passed as a keyword SUB-OPERATOR (a LinearOperator-valued hyperparameter)
+            fn = userops.multitask_op
+            params["task_covar"] = O.RootLinearOperator(params.pop("task_root"))
         return O.KernelLinearOperator(x1, x2, covar_func=fn, **kw, **params)
     raise KeyError("unknown recipe node %r" % op)
 
